@@ -30,6 +30,45 @@ def in_observability_macro(t):
     return m in OBS_MACROS or m.split("::")[-1] in OBS_MACROS
 
 
+class _FeasQueue:
+    """work queue of Pair.explore: entries (bb, holder, path) are extended with the variant tags known along the path
+    (core.G._feas_step); a successor that contradicts a tag the path assigned itself (`let role = Role::Leader; ..
+    match role { Role::Waiter(..) => ` ) is not enqueued"""
+
+    def __init__(self, g, fs):
+        self.g, self.fs = g, fs
+        self.q = deque()
+        self.cur = None
+        self.cur_bb = None
+
+    def __bool__(self):
+        return bool(self.q)
+
+    def append0(self, item):
+        self.q.append(item + (frozenset(),))
+
+    def popleft(self):
+        it = self.q.popleft()
+        self.cur_bb = it[0]
+        self.cur = None
+        self.cur_env = it[3]
+        return it
+
+    def append(self, item):
+        tgt = item[0]
+        if not self.fs:
+            self.q.append(item + (frozenset(),))
+            return
+        if self.cur is None:
+            tracked, sw_local = self.fs
+            self.cur = {}
+            for (t, _k, env2) in self.g._feas_step(self.cur_bb, self.cur_env, tracked, sw_local):
+                self.cur.setdefault(t, env2)
+        if tgt not in self.cur:
+            return          # infeasible under the tags of this path
+        self.q.append(item + (self.cur[tgt],))
+
+
 class Unwind:
     """may-unwind policy (DESIGN §2.2)"""
 
@@ -188,7 +227,9 @@ class Pair:
         g = graph(body)
         viol, transfers = [], []
         seen = set()
-        dq = deque([(start_bb, holder, ((came_from, start_bb) if came_from is not None else (start_bb,)))])
+        fs = g._feas_setup()
+        dq = _FeasQueue(g, fs)
+        dq.append0((start_bb, holder, ((came_from, start_bb) if came_from is not None else (start_bb,))))
         interest = set()
         for bb_ in range(g.n):
             t_ = g.term(bb_)
@@ -197,12 +238,12 @@ class Pair:
         disarmed = set()      # guard locals whose destructor was made a no-op (their drop cannot unwind or release)
         n = 0
         while dq:
-            bb, h, path = dq.popleft()
+            bb, h, path, env = dq.popleft()
             # what this path knows about the locals whose destructor could unwind: moved out / matched as None
             pf = self._path_facts(body, path, interest)
-            if (bb, h, pf) in seen:
+            if (bb, h, pf, env) in seen:
                 continue
-            seen.add((bb, h, pf))
+            seen.add((bb, h, pf, env))
             n += 1
             if n > max_states:
                 viol.append(("state-budget", g.where(bb), path))
@@ -325,7 +366,8 @@ class Pair:
                     # dropping the field that holds the guard
                     continue
                 noop = ((not pl["p"]) and not g.maybe_init(pl["l"], bb)) or in_observability_macro(t) or ((not pl["p"]) and pl["l"] in disarmed) \
-                    or ((not pl["p"]) and (("n", pl["l"]) in pf or ("m", pl["l"]) in pf))
+                    or ((not pl["p"]) and (("n", pl["l"]) in pf or ("m", pl["l"]) in pf)) \
+                    or ((not pl["p"]) and self._tag_dataless(body, pl["l"], env))
                 for (tgt, kind, _l) in g.succ[bb]:
                     if kind == U and noop:
                         continue        # dropping a moved-out local runs no destructor
@@ -417,12 +459,26 @@ class Pair:
                         return True
         return False
 
+    def _tag_dataless(self, body, local, env):
+        """along this path the local was built as a variant without fields (`Role::Leader`, `None`): dropping it runs
+        no destructor"""
+        tag = dict(env).get(local)
+        if tag is None:
+            return False
+        adt = self.facts.adt(body.local_ty(local).get("def") or "")
+        if adt is None:
+            return False
+        for v in adt.get("variants", []):
+            if v.get("name") == tag[0]:
+                return not v.get("fields")
+        return False
+
     def _path_facts(self, body, path, interest):
         out = set()
         for l in interest:
             if self._known_dataless(body, l, path):
                 out.add(("n", l))
-            if self._moved_on_path(body, l, path):
+            if self._moved_on_path(body, l, path) or self._fields_moved_on_path(body, l, path):
                 out.add(("m", l))
         return frozenset(out)
 
@@ -444,7 +500,10 @@ class Pair:
         """along this very path the local's value was moved out (whole-local move) after its last assignment"""
         g = graph(body)
         moved = False
-        for bb in path[:-1]:
+        for n_, bb in enumerate(path):
+            if bb is None:
+                continue
+            last_ = n_ == len(path) - 1      # the block being left: its statements ran, its terminator is the one being judged
             for s in g.stmts(bb):
                 if s["k"] != "assign":
                     continue
@@ -457,7 +516,7 @@ class Pair:
                 if s["lhs"]["l"] == local and not s["lhs"]["p"]:
                     moved = False
             t = g.term(bb)
-            if t["k"] == "call":
+            if t["k"] == "call" and not last_:
                 for a in t["args"]:
                     pl = a.get("move")
                     if pl is not None and pl["l"] == local and not pl["p"]:
@@ -465,6 +524,40 @@ class Pair:
                 if t["dest"]["l"] == local and not t["dest"]["p"]:
                     moved = False
         return moved
+
+    def _fields_moved_on_path(self, body, local, path):
+        """the local is a tuple every field of which was moved out along this very path (`let (a, b) = pair;`): its
+        drop at scope end runs no destructor"""
+        ty = body.local_ty(local)
+        if ty.get("k") != "tuple" or not ty.get("args"):
+            return False
+        g = graph(body)
+        need = set(range(len(ty["args"])))
+        moved = set()
+        for n_, bb in enumerate(path):
+            if bb is None:
+                continue
+            last_ = n_ == len(path) - 1
+            for s in g.stmts(bb):
+                if s["k"] != "assign":
+                    continue
+                rv = s["rv"]
+                ops = [rv["op"]] if rv["k"] in ("use", "cast") else rv.get("ops", []) if rv["k"] == "agg" else []
+                for o in ops:
+                    pl = o.get("move")
+                    if pl is not None and pl["l"] == local and len(pl["p"]) == 1 and isinstance(pl["p"][0], dict) and "f" in pl["p"][0]:
+                        moved.add(pl["p"][0]["f"])
+                if s["lhs"]["l"] == local and not s["lhs"]["p"]:
+                    moved = set()
+            t = g.term(bb)
+            if t["k"] == "call" and not last_:
+                for a in t["args"]:
+                    pl = a.get("move")
+                    if pl is not None and pl["l"] == local and len(pl["p"]) == 1 and isinstance(pl["p"][0], dict) and "f" in pl["p"][0]:
+                        moved.add(pl["p"][0]["f"])
+                if t["dest"]["l"] == local and not t["dest"]["p"]:
+                    moved = set()
+        return need <= moved
 
     def _arming_field(self, body, h, proj):
         """assignment to a field of the guard: treated as disarming when the field is an Option or a bool (the
